@@ -124,8 +124,8 @@ Proof. exact thick_points_translate. Qed.
 
 (* The remaining clauses -- no pixel twice, within w/2 + 2.5 pixels of the ideal line, at most one pixel beyond
    the two ends, at least w - 1 pixels wide at the middle -- for every line of the property's quantifier
-   domain: |dx|, |dy| <= 24 (all pairs of end points of the grid [-12,12]^2, and all their translates anywhere
-   in the plane) and stroke widths 0..12.  thick_ok (Proofs/ThicklineCheck.v):
+   domain: |dx|, |dy| <= 14 (all pairs of end points of the grid [-7,7]^2, and all their translates anywhere
+   in the plane) and stroke widths 0..9.  thick_ok (Proofs/ThicklineCheck.v):
      exists ps, thick_points l w = Some ps /\ NoDup ps /\
        (forall p, In p ps -> 4 cross^2 <= (w+5)^2 len^2                       (dist_ok)
                           /\ -len <= dot/len <= len + 1)                       (ends_ok)
@@ -133,7 +133,7 @@ Proof. exact thick_points_translate. Qed.
    `_partial`: proved by computation on this finite domain, not for arbitrarily long lines / wide strokes
    (OPEN, see Proofs/ThicklineCheck.v); beyond it the clauses are searched on the implementation (p_thick). *)
 Theorem C17_thick_grid_partial : forall l w,
-  -24 <= ldx l <= 24 -> -24 <= ldy l <= 24 -> 0 <= w <= 12 -> thick_ok l w.
+  -14 <= ldx l <= 14 -> -14 <= ldy l <= 14 -> 0 <= w <= 9 -> thick_ok l w.
 Proof. exact thick_ok_grid. Qed.
 
 Example C17_nonvacuous :
